@@ -11,14 +11,23 @@ from scratch import VERIF, Undecided
 CDIR = os.path.join(VERIF, "contracts", "verus")
 
 # unit -> (template, properties served, {fn name -> properties} overrides)
+PRELUDE_FNS = {"make_valid_address|calculate_from_offset": ["C04", "C09"]}
 UNITS = {
-    "loader": {"tpl": "loader.rs", "props": ["C12", "C09"]},
-    "mapper": {"tpl": "mapper.rs", "props": ["C16"]},
-    "printer": {"tpl": "printer.rs", "props": ["C17", "C09"]},
-    "interrupts": {"tpl": "interrupts.rs", "props": ["C18", "C09"]},
-    "transfer": {"tpl": "transfer.rs", "props": ["C08", "C14", "C04"]},
-    "assembler": {"tpl": "assembler.rs", "props": ["C08", "C12", "C14", "C16"]},
-    "lemmas": {"tpl": "lemmas.rs", "props": ["C05", "C07", "C12"]},
+    "loader": {"tpl": "loader.rs", "props": ["C12", "C09", "C04"],
+               "fn_props": {**PRELUDE_FNS, "ld_.*": ["C12", "C09"]}},
+    "mapper": {"tpl": "mapper.rs", "props": ["C16"],
+               "fn_props": {**PRELUDE_FNS, ".*": ["C16"]}},
+    "printer": {"tpl": "printer.rs", "props": ["C17", "C09"],
+                "fn_props": {**PRELUDE_FNS, "pr_.*": ["C17", "C09"]}},
+    "interrupts": {"tpl": "interrupts.rs", "props": ["C18", "C09"],
+                   "fn_props": {**PRELUDE_FNS, "int_13|store_input_line": ["C18", "C09"]}},
+    "transfer": {"tpl": "transfer.rs", "props": ["C08", "C14", "C04", "C12", "C18"],
+                 "fn_props": {**PRELUDE_FNS, "it_call|it_ret": ["C08", "C14"], "it_jumps_loops": ["C08", "C14"],
+                              "it_int": ["C14", "C18"], "it_byte_label|it_word_label": ["C04", "C12", "C14"], "get_type": ["C08", "C14"]}},
+    "assembler": {"tpl": "assembler.rs", "props": ["C08", "C12", "C14", "C16", "C18"],
+                  "fn_props": {**PRELUDE_FNS, "em_\\d+": ["C08", "C16"], "as_proc_def|as_call|as_jmps_loops": ["C08", "C14"],
+                               "as_procedure": ["C08", "C16"], "as_int": ["C14", "C18"], "as_offset": ["C12", "C14"],
+                               "as_byte_label|as_word_label|as_unsupported": ["C14"], "add_entry": ["C16"], "new|get_type": ["C08", "C14"]}},
 }
 
 VERUS_TRUSTED = [
